@@ -110,6 +110,7 @@ pub uninterp spec fn binop_trail_trivia(b: BinOp) -> Seq<Token>;
 """
 
 LIST_SPEC = r"""
+#[verifier::external_type_specification] pub struct ExParameter(Parameter);
 #[verifier::external_type_specification] #[verifier::reject_recursive_types(T)] pub struct ExPair<T>(Pair<T>);
 pub uninterp spec fn ppairs<T>(p: Punctuated<T>) -> Seq<Pair<T>>;
 pub open spec fn pair_value<T>(p: Pair<T>) -> T { match p { Pair::End(v) => v, Pair::Punctuated(v, _) => v } }
@@ -146,7 +147,9 @@ pub open spec fn list_trail_post<T: UpdateTrailingTrivia>(s: Punctuated<T>, t: F
 pub proof fn lemma_pair_ext<T>(p: Pair<T>) ensures p == mk_pair(pair_value(p), pair_punct(p)) { }
 """
 
-NODE_SPEC = (node_specs("If", "n_if", [("if_token", "TokenReference", "ref"), ("end_token", "TokenReference", "ref")], rest=True)
+NODE_SPEC = (node_specs("FunctionBody", "n_fb", [("end_token", "TokenReference", "ref")], rest=True)
+    + node_specs("MethodCall", "n_mc", [("colon_token", "TokenReference", "ref"), ("args", "FunctionArgs", "ref")], rest=True)
+    + node_specs("If", "n_if", [("if_token", "TokenReference", "ref"), ("end_token", "TokenReference", "ref")], rest=True)
     + node_specs("Assignment", "n_asg", [("variables", "Punctuated<Var>", "ref"), ("expressions", "Punctuated<Expression>", "ref")], rest=True)
     + node_specs("Return", "n_ret", [("token", "TokenReference", "ref"), ("returns", "Punctuated<Expression>", "ref")], rest=True)
     + r"""
@@ -169,14 +172,10 @@ impl UpdateTrivia for TableConstructor {
     open spec fn ut_post(&self, l: FormatTriviaType, t: FormatTriviaType, r: &Self) -> bool { table_id(*r) == table_id(*self) }
     #[verifier::external_body] fn update_trivia(&self, leading_trivia: FormatTriviaType, trailing_trivia: FormatTriviaType) -> (r: Self) { unimplemented!() }
 }
-pub uninterp spec fn body_id(b: FunctionBody) -> int;
-impl UpdateTrailingTrivia for FunctionBody {
-    open spec fn utt_post(&self, t: FormatTriviaType, r: &Self) -> bool { body_id(*r) == body_id(*self) }
-    #[verifier::external_body] fn update_trailing_trivia(&self, trailing_trivia: FormatTriviaType) -> (r: Self) { unimplemented!() }
-}
-// the identity of an anonymous function is that of its `function` token and of its body (definitional)
+// the identity of an anonymous function is that of its `function` token and of its body; a body's identity is that of everything in it but
+// the trivia of its `end` token (definitional)
 pub proof fn axiom_anon_fn(a: (TokenReference, FunctionBody), b: (TokenReference, FunctionBody))
-    requires tok_of(a.0) == tok_of(b.0), body_id(a.1) == body_id(b.1), ensures anon_fn_id(a) == anon_fn_id(b) { admit(); }
+    requires tok_of(a.0) == tok_of(b.0), n_fb_rest(&a.1) == n_fb_rest(&b.1), tok_of(n_fb_end_token(&a.1)) == tok_of(n_fb_end_token(&b.1)), ensures anon_fn_id(a) == anon_fn_id(b) { admit(); }
 #[cfg(feature = "luau")] impl UpdateLeadingTrivia for full_moon::ast::luau::IfExpression {
     open spec fn ul_post(&self, l: FormatTriviaType, r: &Self) -> bool { if_id(*r) == if_id(*self) }
     #[verifier::external_body] fn update_leading_trivia(&self, leading_trivia: FormatTriviaType) -> (r: Self) { unimplemented!() }
@@ -264,6 +263,45 @@ IMPL_SPECS = {
 """,
 }
 IMPL_SPECS.update({
+    "FunctionBody:trailing": "    open spec fn utt_post(&self, t: FormatTriviaType, r: &Self) -> bool { n_fb_end_token(self).utt_post(t, &n_fb_end_token(r)) && n_fb_rest(r) == n_fb_rest(self) }\n",
+    "Parameter": """    open spec fn ut_post(&self, l: FormatTriviaType, t: FormatTriviaType, r: &Self) -> bool {
+        match (*self, *r) { (full_moon::ast::Parameter::Ellipsis(a), full_moon::ast::Parameter::Ellipsis(b)) => a.ut_post(l, t, &b), (full_moon::ast::Parameter::Name(a), full_moon::ast::Parameter::Name(b)) => a.ut_post(l, t, &b), _ => false }
+    }
+""",
+    "FunctionArgs": """    open spec fn ut_post(&self, l: FormatTriviaType, t: FormatTriviaType, r: &Self) -> bool {
+        match (*self, *r) {
+            (FunctionArgs::Parentheses { parentheses: p1, arguments: a1 }, FunctionArgs::Parentheses { parentheses: p2, arguments: a2 }) => a2 == a1 && p1.ut_post(l, t, &p2),
+            (FunctionArgs::String(a), FunctionArgs::String(b)) => a.ut_post(l, t, &b),
+            (FunctionArgs::TableConstructor(a), FunctionArgs::TableConstructor(b)) => a.ut_post(l, t, &b),
+            _ => false,
+        }
+    }
+""",
+    "Index": """    open spec fn ut_post(&self, l: FormatTriviaType, t: FormatTriviaType, r: &Self) -> bool {
+        match (*self, *r) {
+            (Index::Brackets { brackets: b1, expression: e1 }, Index::Brackets { brackets: b2, expression: e2 }) => e2 == e1 && b1.ut_post(l, t, &b2),
+            (Index::Dot { dot: d1, name: n1 }, Index::Dot { dot: d2, name: n2 }) => d1.ul_post(l, &d2) && n1.utt_post(t, &n2),
+            _ => false,
+        }
+    }
+""",
+    "MethodCall": "    open spec fn ut_post(&self, l: FormatTriviaType, t: FormatTriviaType, r: &Self) -> bool { n_mc_colon_token(self).ul_post(l, &n_mc_colon_token(r)) && n_mc_args(self).utt_post(t, &n_mc_args(r)) && n_mc_rest(r) == n_mc_rest(self) }\n",
+    "Call": """    open spec fn ut_post(&self, l: FormatTriviaType, t: FormatTriviaType, r: &Self) -> bool {
+        match (*self, *r) { (Call::AnonymousCall(a), Call::AnonymousCall(b)) => a.ut_post(l, t, &b), (Call::MethodCall(a), Call::MethodCall(b)) => a.ut_post(l, t, &b), _ => false }
+    }
+""",
+    "Suffix": """    open spec fn ut_post(&self, l: FormatTriviaType, t: FormatTriviaType, r: &Self) -> bool {
+        match (*self, *r) { (Suffix::Call(a), Suffix::Call(b)) => a.ut_post(l, t, &b), (Suffix::Index(a), Suffix::Index(b)) => a.ut_post(l, t, &b), _ => false }
+    }
+""",
+    "Prefix:leading": """    open spec fn ul_post(&self, l: FormatTriviaType, r: &Self) -> bool {
+        match (*self, *r) { (Prefix::Name(a), Prefix::Name(b)) => a.ul_post(l, &b), (Prefix::Expression(a), Prefix::Expression(b)) => a.ul_post(l, &*b), _ => false }
+    }
+""",
+    "Prefix:trailing": """    open spec fn utt_post(&self, t: FormatTriviaType, r: &Self) -> bool {
+        match (*self, *r) { (Prefix::Name(a), Prefix::Name(b)) => a.utt_post(t, &b), (Prefix::Expression(a), Prefix::Expression(b)) => a.utt_post(t, &*b), _ => false }
+    }
+""",
     "UnOp:leading": "    open spec fn ul_post(&self, l: FormatTriviaType, r: &Self) -> bool { unop_id(*r) == unop_id(*self) && unop_tok(*self).ul_post(l, &unop_tok(*r)) }\n",
     "Expression:leading": "    open spec fn ul_post(&self, l: FormatTriviaType, r: &Self) -> bool { skel(*r) == skel(*self) && lead_only(*self, l, *r) }\n",
     "Expression:trailing": "    open spec fn utt_post(&self, t: FormatTriviaType, r: &Self) -> bool { skel(*r) == skel(*self) && trail_only(*self, t, *r) }\n",
@@ -441,8 +479,17 @@ def items():
         macro_impl("Expression", which="trailing", contract="    decreases self,", edits=[
             Before("match this {", "proof { axiom_tok_of_all(); }"),
             Hole("Expression::Function(anonymous_function) => Expression::Function(Box::new((\n            anonymous_function.0.to_owned(),\n            anonymous_function.1.update_trailing_trivia(trailing),\n        ))),",
-                 "Expression::Function(anonymous_function) => { let vx_body = anonymous_function.1.update_trailing_trivia(trailing);\n            proof { axiom_anon_fn((anonymous_function.0, vx_body), **anonymous_function); }\n            Expression::Function(Box::new((\n            anonymous_function.0.to_owned(),\n            vx_body,\n        ))) },", kind="ghost-name", why="the updated body gets a name for the proof hint; evaluation order: the token's clone is taken after the body's update instead of before (both are pure)"),
+                 "Expression::Function(anonymous_function) => { let vx_body = anonymous_function.1.update_trailing_trivia(trailing);\n            proof { axiom_token_lines(n_fb_end_token(&anonymous_function.1)); axiom_token_lines(n_fb_end_token(&vx_body)); axiom_anon_fn((anonymous_function.0, vx_body), **anonymous_function); }\n            Expression::Function(Box::new((\n            anonymous_function.0.to_owned(),\n            vx_body,\n        ))) },", kind="ghost-name", why="the updated body gets a name for the proof hint; evaluation order: the token's clone is taken after the body's update instead of before (both are pure)"),
         ]),
+        macro_impl("FunctionBody", which="trailing"),
+        macro_impl("Parameter"),
+        macro_impl("FunctionArgs"),
+        macro_impl("Index"),
+        macro_impl("MethodCall"),
+        macro_impl("Call"),
+        macro_impl("Suffix"),
+        macro_impl("Prefix", which="leading"),
+        macro_impl("Prefix", which="trailing"),
         macro_impl("ContainedSpan"),
         macro_impl("BinOp"),
         macro_impl("If"),
@@ -491,4 +538,4 @@ LABELS = {
     "C03.token_both_proxy": dict(props=["C01", "C02", "C03"], text="what the other units assume about update_trivia on a token follows from the verified implementation"),
 }
 
-UNIT = Unit("trivia", items() + [VERIF_MOD], LABELS, macros=[(TRV, "binop_trivia")], feature_sets=("default", "all", "luau"), header=HEADER + "use full_moon::ast::punctuated::Pair;\n")
+UNIT = Unit("trivia", items() + [VERIF_MOD], LABELS, macros=[(TRV, "binop_trivia")], feature_sets=("default", "all", "luau"), header=HEADER + "use full_moon::ast::punctuated::Pair;\nuse full_moon::ast::Parameter;\n")
